@@ -95,6 +95,14 @@ def _sig(t):
             repr(sorted(t.metadata.items())), bool(t.constant_lattice), bool(t.coords_are_displacement))
 
 
+def _rawsig(t):
+    """the stored state, read without any converting accessor"""
+    bp = getattr(t, 'base_positions', None)
+    return (tuple(str(s) for s in t.species), np.asarray(t.coords).tobytes(), bool(t.coords_are_displacement),
+            None if bp is None else np.asarray(bp).tobytes(), np.asarray(t.lattice).tobytes(), repr(t.time_step),
+            repr(sorted(t.metadata.items())), bool(t.constant_lattice))
+
+
 def _mk(d, loader, variant=0):
     if loader == 'lammps':
         c, dat = synthfiles.write_lammps(d, n_frames=5 + 2 * variant, shift=0.1 + 0.05 * variant)
@@ -258,9 +266,11 @@ class _Impl:
             t.to_displacements()
         elif mode == 2:
             t.to_positions()
+        before = _rawsig(t)
         t.to_cache(d / 'x.cache')
+        saved_unchanged = _rawsig(t) == before
         t2 = Trajectory.from_cache(d / 'x.cache')
-        return {'identical': _sig(t) == _sig(t2) and type(t2) is type(t), 'mode': mode}
+        return {'identical': _rawsig(t2) == before and _sig(t) == _sig(t2) and type(t2) is type(t), 'saved_unchanged': saved_unchanged, 'mode': mode}
 
 
 def oracle(case, out):
@@ -293,7 +303,9 @@ def oracle(case, out):
                        f'{case["loader"]}: after loading with {out["opts"][0]}, loading with {out["opts"][1]} returns the cached trajectory of the first call'))
     elif kind == 'roundtrip':
         if not out['identical']:
-            fs.append(('cache/roundtrip', 'to_cache / from_cache does not return an identical trajectory'))
+            fs.append(('cache/roundtrip', f'to_cache / from_cache does not return a trajectory identical to the one that was saved (storage mode {out.get("mode")}: 0 as built, 1 displacements, 2 positions)'))
+        if out.get('saved_unchanged') is False:
+            fs.append(('cache/save-alters-object', f'to_cache changed the stored state of the trajectory it saved (storage mode {out.get("mode")})'))
     return fs
 
 
